@@ -204,6 +204,52 @@ CHECKS["C11"] = dict(
     design="5/C11",
 )
 
+PKG_NOTE = (
+    "Package model (OdfModel/Package.lean): names and bytes are abstracted to identifiers (two parts are equal iff their canonical bytes are), parsing and "
+    "serialising are the identity on these values, the manifest is the list of its entries; zip / folder I/O, lxml and the generator stamp are parameters. "
+    "The model follows every history of the run through `pk` requests and must write the same package as odfdo (names, values, manifest entries). "
+)
+
+CHECKS["C04"] = dict(
+    text="Proved for EVERY history over {add_file / image frame / copied picture, del_part, any edit of content-styles-meta-settings, clone, save + reopen} from a "
+    "coherent source, whatever was read lazily and in whatever order: the invariant (no name twice in the parts, no path twice in the manifest, a file name is "
+    "held iff the manifest lists it) is kept by each operation (step_inv) hence by every history (history_inv); the package save writes has no duplicate name, "
+    "its manifest no duplicate path, and lists exactly its files (saved_package_matches_manifest); mimetype is the first entry (mimetype_first). "
+    "Correspondence: the Lean model follows ~800 histories per quick run and writes the same entries. Oracle (zipfile + lxml): entry order, compression, "
+    "duplicates, manifest entries vs files, root media type, on every save of every history, from the 4 templates and the samples opened by path / buffer / folder.",
+    note=PKG_NOTE + "Hypothesis of the theorems: manifest.rdf is not declared with an EMPTY media type (then _check_manifest_rdf drops the part and keeps the "
+    "entry: not reachable through add_file / del_part). Sources whose own manifest is incoherent are skipped (counted). The root entry / mimetype equality and "
+    "the zip compression flags are decided by the oracle only.",
+    technique="Lean 4 theorems (state invariant by induction over histories, association-list refinement) + differential correspondence + zipfile/lxml oracle",
+    design="5/C04",
+)
+
+CHECKS["C03"] = dict(
+    text="Proved for EVERY history of reads, edits, set_part, add_file, del_part, clones and save / reopen cycles, on documents opened by path (lazy parts) or "
+    "from a buffer: reads never change the document whatever they cache; save writes under every name exactly what the (prepared) document holds — the parsed "
+    "form of parsed XML parts, the bytes of the others — no name twice (save_writes_the_document); when manifest.rdf matches its declaration the package is the "
+    "in-memory document, nothing lost, nothing invented, and reopening gives it back (reopen_is_the_document); an unmodified open / save cycle is the identity "
+    "(open_save_identity); an API edit and the bytes given to set_part are what is saved (also when the part was parsed before). Correspondence: the model "
+    "follows every history. Oracle: names and bytes (XML as canonical XML) of every saved zip / folder against the in-memory document at the time of saving, "
+    "pretty-printed folders up to layout, flat XML export well formed and holding the body text, up to 3 save / reopen cycles.",
+    note=PKG_NOTE + "Pretty-printed saves are compared up to layout (C11's reading); flat XML export cannot be reopened and is checked for well-formedness and body "
+    "text only.",
+    technique="Lean 4 theorems (view refinement of the lazy container + parsed-part cache, every history) + differential correspondence + zipfile/lxml oracle",
+    design="5/C03",
+)
+
+CHECKS["C10"] = dict(
+    text="PARTIAL proof. Proved (package layer): a document clone holds under every name what the original holds, whatever had been cached, edited, replaced or "
+    "deleted before (clone_equal_at_birth), nothing is left on disk only, saving the clone writes what saving the original writes, a clone of a clone too. "
+    "Independence is true by construction in a pure model and is NOT claimed from it. Decided by the harness: tables after C01 histories (clone, clone of clone), "
+    "rows, cells, XML parts, documents after C03 histories; cloning leaves the original unchanged; equal at birth; 2..6 operations interleaved on original and "
+    "clone with the untouched twin observed after each one (serialisation, reads, semantic view of parts); absolute XPath queries from a copy see its own tree "
+    "only; both twins agree with their own reference (plain grid / ledger) at the end; the model follows the document histories in two slots.",
+    note=PKG_NOTE + "Element / row / cell / table clones are decided by the oracle only (their models are the table models of C01, where a clone is a copy of a value).",
+    technique="Lean 4 theorems (clone = same view) + interleaving oracle on twins + differential correspondence",
+    design="5/C10",
+)
+
 NOT_YET = {}
 
 
